@@ -191,7 +191,7 @@ func TestC02Edits(t *testing.T) {
 		}
 		stream.Close()
 		rdEnd := &mitm.End{In: stream, Out: mitm.NewStream()}
-		delivered, prefixOK, errored := 0, 1, 0
+		delivered, prefixOK, errored, afterErr := 0, 1, 0, 0
 		for i := 0; i < K+8; i++ {
 			got, err := reader.ReadMessage(rdEnd)
 			if err != nil {
@@ -203,8 +203,18 @@ func TestC02Edits(t *testing.T) {
 			}
 			delivered++
 		}
+		// a reader that reads on after the error must not be handed
+		// anything any more (what came before the error was a prefix; what
+		// would come now lies behind a gap)
+		if errored == 1 {
+			for i := 0; i < 4; i++ {
+				if _, err := reader.ReadMessage(rdEnd); err == nil {
+					afterErr++
+				}
+			}
+		}
 		enc.Encode(map[string]any{"op": "script", "n": sn, "dir": d, "nmsgs": K, "edits": es,
-			"delivered": delivered, "prefixOK": prefixOK, "errored": errored,
+			"delivered": delivered, "prefixOK": prefixOK, "errored": errored, "afterErr": afterErr,
 			"kk": b2i(kk), "sizes": sizes})
 	}
 	sn := 0
